@@ -209,6 +209,9 @@ func (pr *vParseRun) stream(r *rand.Rand, stream []byte, expect [][]string, well
 		if budget >= 2 {
 			k = 16
 		}
+		if n > 6000 { // the model's per-byte append is quadratic in the argument length: few chunkings for huge streams
+			k = 2
+		}
 		for i := 0; i < k; i++ {
 			pr.one(stream, vRandCuts(r, n, 1+r.Intn(6)), ref, wellFormed)
 		}
@@ -235,7 +238,7 @@ func (pr *vParseRun) stream(r *rand.Rand, stream []byte, expect [][]string, well
 			}
 			pr.one(stream, cuts, ref, wellFormed)
 		}
-		if n <= 4096 {
+		if n <= 1500 {
 			every := [][]byte{}
 			for i := 0; i < n; i++ {
 				every = append(every, stream[i:i+1])
@@ -317,7 +320,7 @@ func vTextParserCases(r *rand.Rand, out *vOut, mon *vMonLimiter, n int, thorough
 	// 3. random lists, pipelines
 	big := 3000
 	for it := 0; it < n; it++ {
-		if thorough && it%400 == 0 {
+		if thorough && it == 0 {
 			big = 65536
 		} else {
 			big = 2000 + r.Intn(2000)
@@ -336,6 +339,10 @@ func vTextParserCases(r *rand.Rand, out *vOut, mon *vMonLimiter, n int, thorough
 			args := make([][]byte, k)
 			for i := range args {
 				args[i] = vRandArg(r, big)
+			}
+			if big == 65536 && c == 0 {
+				args[0] = make([]byte, 65536)
+				r.Read(args[0])
 			}
 			stream = append(stream, build(args)...)
 			expect = append(expect, toStrs(args))
